@@ -1,5 +1,6 @@
 import Yaql.Props.C05
 import Yaql.Model.EvalOrder
+import Yaql.Model.PerElem
 /-!
 C11 - arguments are evaluated once, in order; lazy ones only on demand.
 
@@ -291,5 +292,408 @@ example : trace (.eager [.tick 1 .leaf, .eager [.tick 2 .leaf, .tick 3 (.tick 4 
 example : trace (.switch [.tick 1 .leaf, .tick 3 .leaf, .tick 5 .leaf] [false, true, false]
     [.tick 2 .leaf, .tick 4 .leaf, .tick 6 .leaf]) = [1, 3, 4] := by decide
 example : trace (.coalesce [.tick 1 .leaf, .tick 2 .leaf, .tick 3 .leaf] [true, false, false]) = [1, 2] := by decide
+
+/-! ## part 3: per-element lambdas run once per element consumed
+
+Over `Yaql.PerElem`: the probe log of a streaming operator over ANY input stream (of any length).
+`runOn_log` - nothing is lost, repeated or reordered by running a stage (for all stages);
+`per_element_total` - an operator that applies its lambda to the elements it pulls fires, for each
+element consumed and in input order, the probes of pulling it followed by the probes of the lambda
+body on it, once; nothing of the elements it never pulls;
+`per_element` - the same for the first k+1 results: exactly the elements up to the one that yields
+result k are consumed;
+`take_log` - a consumer that wants k results (`take k`) consumes exactly the first k of them. -/
+
+open Yaql.PerElem
+
+theorem emit_log (pend : List Nat) (r : Rx) : (emit pend r).1.flatten ++ (emit pend r).2 = pend ++ r.events := by
+  unfold emit Rx.events
+  cases r.outs <;> simp
+
+/-- everything a stage fires from its `i`-th pull on: per pulled element the probes of pulling
+    it and of the stage's reaction, up to the reaction that stops - or to the end of the input -/
+def consumedLog (m : Stage) (i : Nat) : List (List Nat) → List Nat → List Nat
+  | [], fin => fin ++ (m.finish i).events
+  | d :: rest, fin => d ++ (m.step i).events ++ (if (m.step i).stop then [] else consumedLog m (i + 1) rest fin)
+
+/-- conservation: the log of the result stream is the pending probes followed by what the stage
+    and the elements it pulls fire, in pull order - whatever the stage hands on or holds back -/
+theorem runFrom_log (m : Stage) : ∀ (ds : List (List Nat)) (i : Nat) (pend fin : List Nat),
+    (runFrom m i pend ds fin).log = pend ++ consumedLog m i ds fin
+  | [], i, pend, fin => by
+      have := emit_log (pend ++ fin) (m.finish i)
+      simp only [runFrom, Strm.log, consumedLog, this, List.append_assoc]
+  | d :: rest, i, pend, fin => by
+      have he := emit_log (pend ++ d) (m.step i)
+      by_cases hs : (m.step i).stop = true
+      · simp only [runFrom, hs, ↓reduceIte, Strm.log, consumedLog, he, List.append_assoc, List.append_nil]
+      · have ih := runFrom_log m rest (i + 1) (emit (pend ++ d) (m.step i)).2 fin
+        simp only [Strm.log] at ih
+        simp only [runFrom, hs, Bool.false_eq_true, ↓reduceIte, Strm.log, consumedLog, List.flatten_append, List.append_assoc, ih]
+        rw [← List.append_assoc (emit (pend ++ d) (m.step i)).1.flatten, he]
+        simp [List.append_assoc]
+
+theorem runOn_log (m : Stage) (I : Strm) :
+    (runOn m I).log = m.start.events ++ (if m.start.stop then [] else consumedLog m 0 I.outs I.fin) := by
+  have he := emit_log [] m.start
+  by_cases hs : m.start.stop = true
+  · simp only [runOn, hs, ↓reduceIte, Strm.log, List.append_nil]
+    simpa using he
+  · have ih := runFrom_log m I.outs 0 (emit [] m.start).2 I.fin
+    simp only [Strm.log] at ih
+    simp only [runOn, hs, Bool.false_eq_true, ↓reduceIte, Strm.log, List.flatten_append, List.append_assoc, ih]
+    rw [← List.append_assoc, he]
+    simp
+
+/-- how many elements a stage pulls from an input (it stops pulling at its first stopping reaction) -/
+def consumed (m : Stage) (i : Nat) : List (List Nat) → Nat
+  | [] => 0
+  | _ :: rest => if (m.step i).stop then 1 else 1 + consumed m (i + 1) rest
+
+/-- does the stage stop by itself before its input ends -/
+def stops (m : Stage) (i : Nat) : List (List Nat) → Bool
+  | [] => false
+  | _ :: rest => (m.step i).stop || stops m (i + 1) rest
+
+theorem consumed_le (m : Stage) : ∀ (ds : List (List Nat)) (i : Nat), consumed m i ds ≤ ds.length
+  | [], _ => by simp [consumed]
+  | _ :: rest, i => by
+      have := consumed_le m rest (i + 1)
+      simp only [consumed, List.length_cons]
+      split <;> omega
+
+/-- pulling element after element and applying the lambda to each: element `j` of `ds` is pulled
+    (its probes fire), then `lam (i+j)` fires -/
+def perElemLog (lam : Nat → List Nat) (i : Nat) : List (List Nat) → List Nat
+  | [] => []
+  | d :: rest => d ++ lam i ++ perElemLog lam (i + 1) rest
+
+/-- the stage applies its lambda (whose probes on input element `i` are `lam i`) to every element
+    it pulls and fires nothing else -/
+structure Applies (m : Stage) (lam : Nat → List Nat) : Prop where
+  start_silent : m.start.events = []
+  start_go : m.start.stop = false
+  step : ∀ i, (m.step i).events = lam i
+  finish_silent : ∀ n, (m.finish n).events = []
+
+theorem consumedLog_applies {m : Stage} {lam : Nat → List Nat} (h : Applies m lam) :
+    ∀ (ds : List (List Nat)) (i : Nat) (fin : List Nat),
+      consumedLog m i ds fin = perElemLog lam i (ds.take (consumed m i ds)) ++ (if stops m i ds then [] else fin)
+  | [], i, fin => by simp [consumedLog, consumed, stops, perElemLog, h.finish_silent]
+  | d :: rest, i, fin => by
+      by_cases hs : (m.step i).stop = true
+      · simp [consumedLog, consumed, stops, perElemLog, hs, h.step]
+      · have ih := consumedLog_applies h rest (i + 1) fin
+        simp only [Bool.not_eq_true] at hs
+        simp only [consumedLog, consumed, stops, hs, Bool.false_eq_true, ↓reduceIte, h.step, ih, Bool.false_or,
+          Nat.add_comm 1, List.take_succ_cons, perElemLog, List.append_assoc]
+
+/-- **per-element lambdas, whole consumption**: an operator that applies its lambda to the
+    elements it pulls fires - whatever its input stream is and however long - for each of the
+    `consumed` elements in input order the probes of pulling it and then the probes of the lambda
+    body on it, once; then, only if it ran into the end of its input, the probes of finding the end.
+    Nothing of the elements behind the `consumed` ones fires. -/
+theorem per_element_total {m : Stage} {lam : Nat → List Nat} (h : Applies m lam) (I : Strm) :
+    (runOn m I).log =
+      perElemLog lam 0 (I.outs.take (consumed m 0 I.outs)) ++ (if stops m 0 I.outs then [] else I.fin) := by
+  rw [runOn_log, h.start_silent, h.start_go]
+  simp only [Bool.false_eq_true, ↓reduceIte, List.nil_append]
+  exact consumedLog_applies h _ _ _
+
+theorem perElemLog_filter (own : Nat → Bool) (lam : Nat → List Nat) (hl : ∀ i, ∀ e ∈ lam i, own e = true) :
+    ∀ (ds : List (List Nat)) (i : Nat), (∀ d ∈ ds, ∀ e ∈ d, own e = false) →
+      (perElemLog lam i ds).filter own = ((List.range' i ds.length).map lam).flatten
+  | [], _, _ => by simp [perElemLog]
+  | d :: rest, i, hd => by
+      have h1 : d.filter own = [] := List.filter_eq_nil_iff.2 fun e he => by simp [hd d (List.mem_cons_self ..) e he]
+      have h2 : (lam i).filter own = lam i := List.filter_eq_self.2 (hl i)
+      have ih := perElemLog_filter own lam hl rest (i + 1) fun d' hd' => hd d' (List.mem_cons_of_mem _ hd')
+      simp only [perElemLog, List.filter_append, h1, h2, ih, List.nil_append, List.length_cons, List.range'_succ,
+        List.map_cons, List.flatten_cons]
+
+/-- the lambda's own probes in the log: the probes of its body once per element consumed, in
+    input order (`lam 0 ++ lam 1 ++ .. ++ lam (consumed-1)`) - when the input's probes are others -/
+theorem per_element_own {m : Stage} {lam : Nat → List Nat} (h : Applies m lam) (I : Strm) (own : Nat → Bool)
+    (hl : ∀ i, ∀ e ∈ lam i, own e = true) (hI : ∀ d ∈ I.outs, ∀ e ∈ d, own e = false) (hf : ∀ e ∈ I.fin, own e = false) :
+    (runOn m I).log.filter own = ((List.range (consumed m 0 I.outs)).map lam).flatten := by
+  rw [per_element_total h, List.filter_append]
+  have hfin : (if stops m 0 I.outs then [] else I.fin).filter own = [] := by
+    split
+    · rfl
+    · exact List.filter_eq_nil_iff.2 fun e he => by simp [hf e he]
+  rw [hfin, List.append_nil, perElemLog_filter own lam hl _ 0 (fun d hd => hI d (List.mem_of_mem_take hd))]
+  rw [List.length_take, Nat.min_eq_left (consumed_le m _ _), List.range_eq_range']
+
+/-! ### asked for k results -/
+
+/-- the stage is `Applies`, hands on at most one result per element - after the lambda has run -
+    and none before its first pull or at the end of its input (select, where, distinct, takeWhile,
+    skipWhile) -/
+structure Simple (m : Stage) (lam : Nat → List Nat) : Prop where
+  applies : Applies m lam
+  start_outs : m.start.outs = []
+  one : ∀ i, ((m.step i).outs = [] ∧ (m.step i).tail = lam i) ∨ ((m.step i).outs = [lam i] ∧ (m.step i).tail = [])
+  finish_outs : ∀ n, (m.finish n).outs = []
+
+/-- how many input elements are pulled to get `k` results -/
+def need (m : Stage) (i : Nat) : Nat → List (List Nat) → Nat
+  | 0, _ => 0
+  | _ + 1, [] => 0
+  | k + 1, _ :: rest =>
+    if (m.step i).stop then 1
+    else if (m.step i).outs.isEmpty then 1 + need m (i + 1) (k + 1) rest
+    else 1 + need m (i + 1) k rest
+
+theorem firstK_runFrom {m : Stage} {lam : Nat → List Nat} (h : Simple m lam) :
+    ∀ (ds : List (List Nat)) (i : Nat) (pend fin : List Nat) (k : Nat), k < (runFrom m i pend ds fin).outs.length →
+      ((runFrom m i pend ds fin).outs.take (k + 1)).flatten = pend ++ perElemLog lam i (ds.take (need m i (k + 1) ds))
+  | [], i, pend, fin, k, hk => by
+      simp [runFrom, emit, h.finish_outs] at hk
+  | d :: rest, i, pend, fin, k, hk => by
+      rcases h.one i with ⟨ho, ht⟩ | ⟨ho, ht⟩
+      · -- the element is held back
+        by_cases hs : (m.step i).stop = true
+        · simp [runFrom, emit, ho, hs] at hk
+        · simp only [Bool.not_eq_true] at hs
+          simp only [runFrom, emit, ho, ht, hs, Bool.false_eq_true, ↓reduceIte, List.nil_append] at hk ⊢
+          rw [firstK_runFrom h rest (i + 1) _ fin k hk]
+          simp [need, hs, ho, perElemLog, Nat.add_comm 1, List.append_assoc]
+      · by_cases hs : (m.step i).stop = true
+        · simp only [runFrom, emit, ho, hs, ↓reduceIte, List.length_cons, List.length_nil] at hk
+          have : k = 0 := by omega
+          subst this
+          simp [runFrom, emit, ho, hs, need, perElemLog, List.append_assoc]
+        · simp only [Bool.not_eq_true] at hs
+          cases k with
+          | zero => simp [runFrom, emit, ho, hs, need, perElemLog, List.append_assoc]
+          | succ k =>
+            simp only [runFrom, emit, ho, ht, hs, Bool.false_eq_true, ↓reduceIte, List.cons_append, List.length_cons,
+              Nat.add_lt_add_iff_right, List.nil_append] at hk
+            have ih := firstK_runFrom h rest (i + 1) [] fin k hk
+            simp only [List.nil_append] at ih
+            simp only [runFrom, emit, ho, ht, hs, Bool.false_eq_true, ↓reduceIte, List.cons_append, List.nil_append,
+              List.take_succ_cons, List.flatten_cons, ih]
+            simp [need, hs, ho, perElemLog, Nat.add_comm 1, List.append_assoc]
+
+/-- **per_element**: a streaming operator with a per-element lambda, asked for its first k+1
+    results over ANY input stream: what fires is, for each of the `need` input elements up to the
+    one that yields result k and in input order, the probes of pulling the element followed by
+    the probes of the lambda body on it - once each.  Nothing of the elements behind fires, nor is
+    any lambda instance run twice. -/
+theorem per_element {m : Stage} {lam : Nat → List Nat} (h : Simple m lam) (I : Strm) (k : Nat)
+    (hk : k < (runOn m I).outs.length) :
+    ((runOn m I).outs.take (k + 1)).flatten = perElemLog lam 0 (I.outs.take (need m 0 (k + 1) I.outs)) := by
+  have h0 : (emit [] m.start) = ([], []) := by
+    have := h.applies.start_silent
+    simp only [Rx.events, h.start_outs, List.flatten_nil, List.nil_append] at this
+    simp [emit, h.start_outs, this]
+  simp only [runOn, h.applies.start_go, Bool.false_eq_true, ↓reduceIte, h0, List.nil_append] at hk ⊢
+  simpa using firstK_runFrom h I.outs 0 [] I.fin k hk
+
+theorem need_le (m : Stage) : ∀ (ds : List (List Nat)) (i k : Nat), need m i k ds ≤ ds.length
+  | _, _, 0 => by simp [need]
+  | [], _, _ + 1 => by simp [need]
+  | _ :: rest, i, k + 1 => by
+      have h1 := need_le m rest (i + 1) (k + 1)
+      have h2 := need_le m rest (i + 1) k
+      simp only [need, List.length_cons]
+      split
+      · omega
+      · split <;> omega
+
+/-- the lambda's own probes in the log of the first k+1 results: once per element consumed, in order -/
+theorem per_element_own_firstK {m : Stage} {lam : Nat → List Nat} (h : Simple m lam) (I : Strm) (k : Nat)
+    (hk : k < (runOn m I).outs.length) (own : Nat → Bool)
+    (hl : ∀ i, ∀ e ∈ lam i, own e = true) (hI : ∀ d ∈ I.outs, ∀ e ∈ d, own e = false) :
+    (((runOn m I).outs.take (k + 1)).flatten).filter own = ((List.range (need m 0 (k + 1) I.outs)).map lam).flatten := by
+  rw [per_element h I k hk, perElemLog_filter own lam hl _ 0 (fun d hd => hI d (List.mem_of_mem_take hd))]
+  rw [List.length_take, Nat.min_eq_left (need_le m _ _ _), List.range_eq_range']
+
+/-! ### the consumer that wants k results -/
+
+theorem take_consumedLog (k : Nat) (fin : List Nat) : ∀ (ds : List (List Nat)) (i : Nat), i ≤ k → k + 1 - i ≤ ds.length →
+    consumedLog (stageOf (.take (k + 1))) i ds fin = (ds.take (k + 1 - i)).flatten
+  | [], i, hi, hl => by simp at hl; omega
+  | d :: rest, i, hi, hl => by
+      have he : ((stageOf (.take (k + 1))).step i).events = [] := by simp [stageOf, Rx.events]
+      by_cases hik : i = k
+      · subst hik
+        have hs : ((stageOf (.take (i + 1))).step i).stop = true := by simp [stageOf]
+        simp only [consumedLog, he, hs, ↓reduceIte, List.append_nil]
+        have : i + 1 - i = 1 := by omega
+        simp [this]
+      · have hs : ((stageOf (.take (k + 1))).step i).stop = false := by simp [stageOf]; omega
+        have ih := take_consumedLog k fin rest (i + 1) (by omega) (by simp at hl; omega)
+        simp only [consumedLog, he, hs, Bool.false_eq_true, ↓reduceIte, List.append_nil, ih]
+        have : k + 1 - i = (k + 1 - (i + 1)) + 1 := by omega
+        rw [this, List.take_succ_cons, List.flatten_cons]
+
+/-- `take (k+1)` over a stream that has k+1 elements pulls exactly these: the log is the probes
+    of the first k+1 elements and nothing of what follows (nor of the end of the stream) -/
+theorem take_log (S : Strm) (k : Nat) (hk : k + 1 ≤ S.outs.length) :
+    (runOn (stageOf (.take (k + 1))) S).log = (S.outs.take (k + 1)).flatten := by
+  rw [runOn_log]
+  have h1 : (stageOf (.take (k + 1))).start.events = [] := by simp [stageOf, Rx.events]
+  have h2 : (stageOf (.take (k + 1))).start.stop = false := by simp [stageOf]
+  rw [h1, h2]
+  simpa using take_consumedLog k S.fin S.outs 0 (by omega) (by simpa using hk)
+
+/-- `take 0` pulls nothing -/
+theorem take_zero_log (S : Strm) : (runOn (stageOf (.take 0)) S).log = [] := by
+  rw [runOn_log]
+  simp [stageOf, Rx.events]
+
+/-- a stream shorter than what is asked for is consumed completely, the end included -/
+theorem take_short_log (S : Strm) (k : Nat) (hk : S.outs.length < k) :
+    (runOn (stageOf (.take k)) S).log = S.log := by
+  have hApp : Applies (stageOf (.take k)) (fun _ => []) :=
+    ⟨by simp [stageOf, Rx.events], by simp [stageOf]; omega, fun i => by simp [stageOf, Rx.events], fun n => by simp [stageOf, Rx.events]⟩
+  rw [per_element_total hApp]
+  have hgen : ∀ (ds : List (List Nat)) (i : Nat), i + ds.length < k →
+      consumed (stageOf (.take k)) i ds = ds.length ∧ stops (stageOf (.take k)) i ds = false := by
+    intro ds
+    induction ds with
+    | nil => intro i _; simp [consumed, stops]
+    | cons d rest ih =>
+      intro i hi
+      simp only [List.length_cons] at hi
+      have hs : ((stageOf (.take k)).step i).stop = false := by simp [stageOf]; omega
+      have := ih (i + 1) (by omega)
+      simp [consumed, stops, hs, this.1, this.2, Nat.add_comm 1]
+  obtain ⟨hc, hs⟩ := hgen S.outs 0 (by omega)
+  rw [hc, hs, List.take_length]
+  have : ∀ (ds : List (List Nat)) (i : Nat), perElemLog (fun _ => []) i ds = ds.flatten := by
+    intro ds
+    induction ds with
+    | nil => intro i; rfl
+    | cons d rest ih => intro i; simp [perElemLog, ih]
+  simp [this, Strm.log]
+
+/-! ### the operators -/
+
+theorem simple_select (bodies : List X) : Simple (stageOf (.select bodies)) (bodyAt bodies) :=
+  ⟨⟨rfl, rfl, fun i => by simp [stageOf, yield1, Rx.events], fun _ => rfl⟩, rfl,
+   fun i => Or.inr ⟨rfl, rfl⟩, fun _ => rfl⟩
+
+theorem simple_filter (bodies : List X) (keep : List Bool) : Simple (stageOf (.filter bodies keep)) (bodyAt bodies) := by
+  refine ⟨⟨rfl, rfl, fun i => ?_, fun _ => rfl⟩, rfl, fun i => ?_, fun _ => rfl⟩
+  · simp only [stageOf]; split <;> simp [yield1, quiet, Rx.events]
+  · simp only [stageOf]; split <;> simp [yield1, quiet]
+
+theorem simple_takeWhile (bodies : List X) (keep : List Bool) : Simple (stageOf (.takeWhile bodies keep)) (bodyAt bodies) := by
+  refine ⟨⟨rfl, rfl, fun i => ?_, fun _ => rfl⟩, rfl, fun i => ?_, fun _ => rfl⟩
+  · simp only [stageOf]; split <;> simp [yield1, Rx.events]
+  · simp only [stageOf]; split <;> simp [yield1]
+
+/-- `skipWhile` applies its predicate as long as it has held so far, and never again -/
+theorem simple_skipWhile (bodies : List X) (keep : List Bool) :
+    Simple (stageOf (.skipWhile bodies keep)) (fun i => if allBefore keep i then bodyAt bodies i else []) := by
+  refine ⟨⟨rfl, rfl, fun i => ?_, fun _ => rfl⟩, rfl, fun i => ?_, fun _ => rfl⟩
+  · simp only [stageOf]; split <;> (try split) <;> simp [yield1, quiet, Rx.events]
+  · simp only [stageOf]; split <;> (try split) <;> simp [yield1, quiet]
+
+theorem applies_selectMany (bodies : List X) (counts : List Nat) :
+    Applies (stageOf (.selectMany bodies counts)) (bodyAt bodies) := by
+  refine ⟨rfl, rfl, fun i => ?_, fun _ => rfl⟩
+  simp only [stageOf]
+  split <;> simp [quiet, Rx.events]
+
+/-- `any`, `all`, `indexWhere`, `first`: the lambda on every element up to the first hit -/
+theorem applies_search (bodies : List X) (hit : List Bool) : Applies (stageOf (.search bodies hit)) (bodyAt bodies) := by
+  refine ⟨rfl, rfl, fun i => ?_, fun _ => by simp [stageOf, Rx.events]⟩
+  simp only [stageOf]; split <;> simp [quiet, Rx.events]
+
+/-- the search stops pulling at the first hit: the elements behind it are never touched -/
+theorem search_consumed (bodies : List X) (hit : List Bool) :
+    ∀ (ds : List (List Nat)) (i : Nat), hit.getD i false = true → ds ≠ [] → consumed (stageOf (.search bodies hit)) i ds = 1
+  | [], _, _, h => absurd rfl h
+  | _ :: _, i, hh, _ => by
+      have hs : ((stageOf (.search bodies hit)).step i).stop = true := by
+        simp only [stageOf, hh, ↓reduceIte]
+      simp only [consumed, hs, ↓reduceIte]
+
+theorem applies_each (bodies : List X) (nout : Nat) : Applies (stageOf (.each bodies nout)) (bodyAt bodies) :=
+  ⟨rfl, rfl, fun i => by simp [stageOf, quiet, Rx.events], fun _ => by simp [stageOf, Rx.events]⟩
+
+theorem applies_accumulate (bodies : List X) (seeded : Bool) :
+    Applies (stageOf (.accumulate bodies seeded)) (fun i => if !seeded && i == 0 then [] else bodyAt bodies i) := by
+  refine ⟨?_, ?_, fun i => ?_, fun _ => rfl⟩
+  · simp only [stageOf]; split <;> simp [yield1, Rx.events]
+  · simp only [stageOf]; split <;> simp [yield1]
+  · simp only [stageOf]; split <;> simp [yield1, Rx.events]
+
+/-! ### lazy collections in SECOND argument position: zip, concat, join -/
+
+/-- `zip(other)`: element i of `other` is pulled when - and only when - the receiver has delivered
+    its element i; the first missing one ends the zip (and the receiver's element is lost) -/
+theorem applies_zip (other : Strm) :
+    Applies (stageOf (.zip other)) (fun i => match other.outs[i]? with | some d => d | none => other.fin) := by
+  refine ⟨rfl, rfl, fun i => ?_, fun _ => rfl⟩
+  simp only [stageOf]; split <;> simp_all [yield1, Rx.events]
+
+/-- `concat(other)` over an empty or exhausted receiver hands on `other` as it is; nothing of `other`
+    fires before the receiver has ended -/
+theorem concat_log (other I : Strm) :
+    (runOn (stageOf (.concat other)) I).log = I.log ++ other.log := by
+  rw [runOn_log]
+  have h1 : (stageOf (.concat other)).start.events = [] := rfl
+  have h2 : (stageOf (.concat other)).start.stop = false := rfl
+  rw [h1, h2]
+  have : ∀ (ds : List (List Nat)) (i : Nat), consumedLog (stageOf (.concat other)) i ds I.fin = ds.flatten ++ I.fin ++ other.log := by
+    intro ds
+    induction ds with
+    | nil => intro i; simp [consumedLog, stageOf, Rx.events, Strm.log]
+    | cons d rest ih =>
+      intro i
+      have hstep : (stageOf (.concat other)).step i = yield1 [] := rfl
+      rw [consumedLog, hstep, ih (i + 1)]
+      simp [yield1, Rx.events, List.append_assoc]
+  simp [this, Strm.log, List.append_assoc]
+
+/-- the probes of one pass of `join` over the inner collection: per inner element the probes of
+    pulling it, of the predicate, and - when it holds - of the selector -/
+def joinLog : List (List Nat) → List X → List Bool → List X → List Nat
+  | [], _, _, _ => []
+  | d :: ds, ps, fs, ss =>
+    d ++ trace (ps.headD .leaf) ++ (if fs.headD false then trace (ss.headD .leaf) else []) ++ joinLog ds ps.tail fs.tail ss.tail
+
+theorem joinRows_events : ∀ (ds : List (List Nat)) (ps : List X) (fs : List Bool) (ss : List X),
+    (joinRows ds ps fs ss).1.flatten ++ (joinRows ds ps fs ss).2 = joinLog ds ps fs ss
+  | [], _, _, _ => rfl
+  | d :: ds, ps, fs, ss => by
+      have ih := joinRows_events ds ps.tail fs.tail ss.tail
+      by_cases hf : fs.headD false = true
+      · simp only [joinRows, hf, ↓reduceIte, List.flatten_cons, joinLog, List.append_assoc, ← ih]
+      · simp only [Bool.not_eq_true] at hf
+        simp only [joinRows, hf, Bool.false_eq_true, ↓reduceIte, joinLog, List.append_nil, ← ih]
+        cases h : (joinRows ds ps.tail fs.tail ss.tail).1 <;> simp [List.append_assoc]
+
+/-- `join`: the inner collection is pulled in the pass of the FIRST outer element only (its
+    probes, element by element, in front of the predicate that looks at the element; the probes of
+    finding its end at the end of that pass); the later passes fire predicates and selectors only -/
+theorem join_pass_events (inner : Strm) (preds : List (List X)) (flags : List (List Bool)) (sels : List (List X)) (i : Nat) :
+    ((stageOf (.join inner preds flags sels)).step i).events =
+      if i = 0 then joinLog inner.outs (preds.getD 0 []) (flags.getD 0 []) (sels.getD 0 []) ++ inner.fin
+      else joinLog (inner.outs.map fun _ => []) (preds.getD i []) (flags.getD i []) (sels.getD i []) := by
+  cases i with
+  | zero => simp [stageOf, Rx.events, ← joinRows_events, List.append_assoc]
+  | succ i => simp [stageOf, Rx.events, ← joinRows_events]
+
+/-- `join` over an EMPTY outer side never touches its second collection: none of its probes fires -/
+theorem join_empty_outer (inner : Strm) (preds : List (List X)) (flags : List (List Bool)) (sels : List (List X)) (fin : List Nat) :
+    (runOn (stageOf (.join inner preds flags sels)) ⟨[], fin⟩).log = fin := by
+  rw [runOn_log]
+  simp [stageOf, Rx.events, consumedLog]
+
+/-- concrete instances (the shapes of the join seed's demo): `[a, b].join(inner.select(tick), true, sel).first()`
+    pulls ONE inner element; with an empty outer side none -/
+example : pipeLog [.join ⟨[[10], [20], [30]], []⟩ [] [[true, true, true], [true, true, true]] [], .take 1] (listSrc 2) = [10] := by
+  decide
+example : pipeLog [.join ⟨[[10], [20], [30]], []⟩ [] [] []] (listSrc 0) = [] := by decide
+example : pipeLog [.join ⟨[[10], [20], [30]], [99]⟩ [] [[true, true, true], [true, true, true]] []] (listSrc 2) = [10, 20, 30, 99] := by
+  decide
+example : pipeLog [.select [.tick 1 .leaf, .tick 1 .leaf, .tick 1 .leaf], .filter [.tick 2 .leaf, .tick 2 .leaf] [false, true],
+    .take 1] (listSrc 3) = [1, 2, 1, 2] := by decide
+example : pipeLog [.select [.tick 1 .leaf, .tick 1 .leaf], .zip ⟨[[7]], [8]⟩] (listSrc 2) = [1, 7, 1, 8] := by decide
 
 end Yaql.Props.C11
